@@ -45,6 +45,11 @@ def bases():
                 'transfers': [{'kind': 'download', 'dst': 'path', 'size': 20, 'preexisting': True, 'name_len': 255}]})
     out.append({'front_end': 'legacy', 'config': dict(lcfg), 'dirwatch': True,
                 'transfers': [{'kind': 'download', 'dst': 'path', 'size': 20, 'preexisting': True, 'name_len': 246}]})
+    # the destination path names a special file (a FIFO with a reader, also through a symbolic link): nothing is published by
+    # rename there, and after a failure / cancellation the special file is still what stands under the name
+    for size in (10, 20):
+        out.append({'config': dict(cfg), 'transfers': [{'kind': 'download', 'dst': 'fifo', 'size': size}]})
+    out.append({'config': dict(cfg), 'transfers': [{'kind': 'download', 'dst': 'fifo', 'size': 20, 'symlink': True}]})
     # the destination name is an existing non-empty directory (the request succeeds, publishing cannot): all three front-ends
     out.append({'config': dict(cfg), 'dirwatch': True, 'transfers': [{'kind': 'download', 'dst': 'path', 'size': 20, 'dst_is_dir': True}]})
     out.append({'config': dict(cfg), 'dirwatch': True, 'transfers': [{'kind': 'download', 'dst': 'path', 'size': 10, 'dst_is_dir': True}]})
